@@ -39,7 +39,14 @@ var (
 	ErrTableNotExist     = errors.New("table does not exist")
 	ErrTypeMismatch      = errors.New("types do not match")
 	ErrIntOutOfRange     = errors.New("integer value out of range")
+	ErrSysTableReadOnly  = errors.New("system tables can not be modified")
 )
+
+// isSysTable reports whether tableName is one of the catalog tables, which are
+// maintained by CREATE TABLE only.
+func isSysTable(tableName string) bool {
+	return tableName == pageTableName || tableName == schemaTableName
+}
 
 type FieldDef struct {
 	DataType
@@ -841,6 +848,10 @@ func (rs *RelationService) scanRelation(fileOffset uint64, r *Relation, fields F
 func (rs *RelationService) Insert(tableName string, cols []string, vals []interface{}) (WALBatch, error) {
 	var walLogs WALBatch
 
+	if isSysTable(tableName) {
+		return walLogs, ErrSysTableReadOnly
+	}
+
 	fileOffset, err := rs.getRelationFileOffset(tableName)
 	if err != nil {
 		return walLogs, err
@@ -918,6 +929,10 @@ func (rs *RelationService) Insert(tableName string, cols []string, vals []interf
 func (rs *RelationService) Update(tableName string, rowID uint32, cols []string, updateSrc []interface{}) (WALBatch, error) {
 	var walLogs WALBatch
 
+	if isSysTable(tableName) {
+		return walLogs, ErrSysTableReadOnly
+	}
+
 	fileOffset, err := rs.getRelationFileOffset(tableName)
 	if err != nil {
 		return walLogs, err
@@ -985,6 +1000,10 @@ func (rs *RelationService) Update(tableName string, rowID uint32, cols []string,
 
 func (rs *RelationService) MarkDeleted(tableName string, rowID uint32) (WALBatch, error) {
 	var walLogs WALBatch
+
+	if isSysTable(tableName) {
+		return walLogs, ErrSysTableReadOnly
+	}
 
 	fileOffset, err := rs.getRelationFileOffset(tableName)
 	if err != nil {
